@@ -1,0 +1,59 @@
+//go:build verif
+
+package engine
+
+// Machine-checked contracts for package engine (comment-only; see klog/contracts_verif.go).
+
+// mapParse: the three result lists have the same length (one entry per block) and the number of
+// consumed bytes stays within the text.
+//@ func (SerialParser[T]).mapParse
+//@ requires p.ParseOne != nil
+//@ ensures len(result0) == len(result1) && len(result1) == len(result3) && 0 <= result2 && result2 <= len(text)
+//@ ensures forall(k, 0, len(result1), nonnil(result1[k]) && fresh(result1[k]))
+//@ loop 1 invariant 0 <= totalBytesConsumed && totalBytesConsumed <= len(text) && len(ts) == len(blocks) && len(blocks) == len(errs)
+//@ loop 1 invariant forall(k, 0, len(blocks), nonnil(blocks[k]) && fresh(blocks[k]))
+//@ loop 1 decreases len(text) - totalBytesConsumed
+
+// Parse: either values with one block per value and no errors, or neither values nor blocks.
+//@ func (SerialParser[T]).Parse
+//@ requires p.ParseOne != nil
+//@ ensures implies(isnil(result2), len(result0) == len(result1))
+//@ ensures implies(!isnil(result2), isnil(result0) && isnil(result1))
+
+// splitIntoChunks: exactly numberOfBatches chunks; every cut position lies within the text.
+//@ func splitIntoChunks
+//@ requires numberOfBatches >= 1
+//@ ensures len(result) == numberOfBatches
+//@ loop 1 invariant 0 <= pointer && pointer <= len(txt) && batchByteSize >= 0 && len(batches) == numberOfBatches
+//@ loop 1 decreases numberOfBatches - i
+//@ loop 2 invariant nextPointer >= pointer + batchByteSize && (nextPointer <= len(txt) || nextPointer == pointer + batchByteSize)
+//@ loop 2 decreases len(txt) - nextPointer
+
+//@ func countBytes
+//@ requires nonnil(b)
+//@ ensures result >= 0
+//@ loop 1 invariant result >= 0
+
+// processAsync runs the work function once per batch in its own goroutine and stores each result at the
+// index recorded in the result (fan-in). Goroutines and channels are outside the verified subset: the
+// contract is trusted (assumption A-FANIN) and the body is not verified.
+//@ func (ParallelBatchParser[T]).processAsync
+//@ trusted
+//@ ensures len(result) == len(batches)
+//@ ensures forall(i, 0, len(result), forall(k, 0, len(result[i].blocks), nonnil(result[i].blocks[k]) && fresh(result[i].blocks[k])))
+//@ ensures forall(i, 0, len(result), len(result[i].values) == len(result[i].blocks))
+
+// Parse (parallel): never panics for a positive number of workers; either values with one block per value, or errors only.
+//@ func (ParallelBatchParser[T]).Parse
+//@ requires p.NumberOfWorkers >= 1 && p.SerialParser.ParseOne != nil
+//@ ensures implies(isnil(result2), len(result0) == len(result1))
+//@ ensures implies(!isnil(result2), isnil(result0) && isnil(result1))
+//@ loop 1 invariant len(allValues) == len(allBlocks)
+//@ loop 1 invariant forall(k, 0, len(allBlocks), nonnil(allBlocks[k]))
+//@ loop 1 invariant forall(k, 0, len(allBlocks), fresh(allBlocks[k]))
+//@ loop 2 invariant forall(k, 0, len(allBlocks), nonnil(allBlocks[k]) && fresh(allBlocks[k]))
+
+// The worker: splits its batch into a head (possibly incomplete first block), complete blocks and a tail.
+//@ func (ParallelBatchParser[T]).Parse$1
+//@ requires p.SerialParser.ParseOne != nil
+//@ ensures forall(k, 0, len(result.blocks), nonnil(result.blocks[k])) && len(result.values) == len(result.blocks) && len(result.blocks) == len(result.errs) && result.index == batchIndex
